@@ -498,7 +498,8 @@ def parse_str_corpus(txt, stem):
 
 # ====================================================================================== a_vec / a_buf
 VEC_LINE = re.compile(r"^(\S+) d=\[([^\]]*)\] e=\[([^\]]*)\](.*) L=(\d+):(\d+)$")
-VEC_STATE = re.compile(r" (v0|v1|b):(nil|z=\d+,n=\d+,m=\d+,p=\d\[[^\]]*\])")
+VEC_STATE = re.compile(r" (v0|v1|b):(nil|z=\d+,n=\d+,m=\d+,p=\d(?:,o=\d+)?\[[^\]]*\])")
+VEC_TAGS = re.compile(r" (v0|v1|b):")
 VEC_LIMIT = 0x10000
 VEC_SIZES = [1, 2, 4, 8, 13, 0, 3]
 VEC_FN = {"ins": "insert", "pushb": "push_back", "pushf": "push_fore", "pushs": "push_sort", "setm": "setm", "setn": "setn",
@@ -514,7 +515,10 @@ def vec_parse(ln):
     if not m:
         return None
     ret, d, e, st, lc, lb = m.groups()
-    return {"ret": ret, "d": d, "ev": [x for x in e.split(",") if x], "st": dict(VEC_STATE.findall(st)), "L": (int(lc), int(lb))}
+    states = dict(VEC_STATE.findall(st))
+    if len(states) != len(VEC_TAGS.findall(st)):
+        return None       # a container state of the line was not understood: never judge on a partial parse
+    return {"ret": ret, "d": d, "ev": [x for x in e.split(",") if x], "st": states, "L": (int(lc), int(lb))}
 
 
 def vec_site(opl):
